@@ -345,6 +345,15 @@ fn run_phase<'a, C: Codec<'a>>(
                         "read" => c.feed_read(piece),
                         "foreign" => c.feed_foreign(piece),
                         "shared" => c.feed_from(shared.get_or_insert_with(ByteArena::new), piece),
+                        "split" => {
+                            // an arena read split in two: the first half goes in as an AnchoredSlice, the second by copy
+                            let a = c.read_ahead(piece)?;
+                            let (l, r) = a.split_at(piece.len() / 2);
+                            c.feed_held(l)?;
+                            let right = r.slice().to_vec();
+                            drop(r);
+                            c.feed_copy(&right)
+                        }
                         "flaky" => c.feed_flaky(
                             piece,
                             op["sched"].as_array().map(|a| a.iter().map(|x| x.as_i64().unwrap()).collect()).unwrap_or_else(|| vec![1, 0, 2, 0, 0, 3]),
